@@ -34,7 +34,9 @@ type C04Table struct {
 	flushInd *flusherIntroduction
 	flushEnd chan struct{}
 	flushSnp *snapshot
-	epoch    uint64
+	// panic value of the flusher goroutine
+	flushPanic any
+	epoch      uint64
 	// LoadedEpoch is the epoch of the manifest initTSTable loaded (0 = none).
 	LoadedEpoch uint64
 }
@@ -88,13 +90,21 @@ func (t *C04Table) FlushBegin() bool {
 	}
 	flushCh := make(chan *flusherIntroduction)
 	done := make(chan struct{})
-	go func() { defer close(done); t.tst.flush(snp, flushCh) }()
+	t.flushPanic = nil
+	go func() {
+		defer close(done)
+		defer func() { t.flushPanic = recover() }() // re-raised on the harness goroutine
+		t.tst.flush(snp, flushCh)
+	}()
 	select {
 	case ind := <-flushCh:
 		t.flushInd, t.flushEnd, t.flushSnp = ind, done, snp
 		return true
 	case <-done:
 		snp.decRef()
+		if t.flushPanic != nil {
+			panic(t.flushPanic)
+		}
 		return false
 	}
 }
@@ -106,6 +116,9 @@ func (t *C04Table) FlushEnd() {
 	<-t.flushEnd
 	t.flushSnp.decRef()
 	t.flushInd, t.flushEnd, t.flushSnp = nil, nil, nil
+	if t.flushPanic != nil {
+		panic(t.flushPanic)
+	}
 }
 
 // GC is the gc.clean() call the introducer loop makes after a flush or merge introduction.
